@@ -77,16 +77,13 @@ def template_differential(ctx, templates, gen_compiled, kind, only_types=None):
         if ty not in grids:
             grids[ty] = type_grid(ty, rnd, size)
     tys = list(grids)
-    table, ev = ("legacy_templates", "leval (env2 (fst p) (snd p)) t") if kind == "legacy" else \
-        ("venom_templates", "vrun [(\"%2\"%string, enc (snd p)); (\"%1\"%string, enc (fst p))] t")
-    gen = "GenLegacy" if kind == "legacy" else "GenVenom"
-    imports = COQ_PRELUDE + (f"From Verif Require Import C03.{gen}.\n" if gen_compiled else "")
+    imports = COQ_PRELUDE
     for i, ty in enumerate(tys):
         imports += f"Definition G{i} := {zlist(grids[ty])}.\n"
-    if gen_compiled:
-        imports += ("Definition lev_row (n : nat) (G : list Z) (unary : bool) : list Z :=\n"
-                    f"  match nth_error {table} n with\n"
-                    f"  | Some (_, _, t) => map (fun p => oc ({ev})) (prs G unary)\n  | None => [] end.\n")
+    imports += ("Definition lev_row (t : lir) (G : list Z) (unary : bool) : list Z :=\n"
+                "  map (fun p => oc (leval (env2 (fst p) (snd p)) t)) (prs G unary).\n"
+                "Definition vev_row (t : vtemplate) (G : list Z) (unary : bool) : list Z :=\n"
+                "  map (fun p => oc (vrun [(\"%2\"%string, enc (snd p)); (\"%1\"%string, enc (fst p))] t)) (prs G unary).\n")
     chain = Chain("cancun")
     rows, meta = [], []
     n_eval = 0
@@ -99,7 +96,8 @@ def template_differential(ctx, templates, gen_compiled, kind, only_types=None):
         obs = run_code(chain, code, cs)
         n_eval += len(cs)
         rows.append({"spec": f"spec_row {X.nty(*ty)} {op} G{gi} {un}",
-                     "model": f"lev_row {j} G{gi} {un}" if gen_compiled else None, "obs": obs})
+                     "model": (f"lev_row {X.lir_term(n)} G{gi} {un}" if kind == "legacy"
+                               else f"vev_row {X.vtemplate_term(*n)} G{gi} {un}"), "obs": obs})
         meta.append((op, ty, n, cs, obs))
     res = compare_rows(imports, rows, "c03" + kind)
     bad_model, failing = [], []
